@@ -147,8 +147,8 @@ package leader
 //@   on call KeyValue.Create as c assert C05.token_drawn_for_this_attempt: $tokenDrawn && TokenOf(c.value) == $lastDrawn
 //@   on ret KeyValue.Create set $tokenDrawn = false
 //@   on call wg.Add assert C20+C09.wait_group_grows_under_the_mutex_or_on_a_tracked_goroutine: (nheld(kvElection.mu) >= 1 && e.stopsWaiting == 0) || caller.onTrackedGoroutine
-//@   on call kvElection.onDemote assert C08+C09+C11+C13.callbacks_run_outside_the_mutex: nheld(kvElection.mu) == 0
-//@   on call kvElection.onPromote assert C08+C09+C13.callbacks_run_outside_the_mutex: nheld(kvElection.mu) == 0
+//@   on call kvElection.onDemote assert C08+C09+C11+C13+C03+C06.callbacks_run_outside_the_mutex: nheld(kvElection.mu) == 0
+//@   on call kvElection.onPromote assert C08+C09+C13+C03+C06.callbacks_run_outside_the_mutex: nheld(kvElection.mu) == 0
 //@   on unlock kvElection.mu assert C18.gauge_follows_claim: $gaugeFresh
 //@   on call recordTransition as c assert C18.transition_chain: c.fromState == $stateAtLock && c.toState == $stateStored && held(c.e.mu) == 2
 
@@ -464,7 +464,7 @@ package leader
 //@   on call ConnectionMonitor.OnReconnect as c assert C11.wires_reconnect_handler: isfunc(c.arg0, "kvElection.handleReconnect")
 //@   ensures C11.monitor_wired: result == nil && e.connectionMonitor != nil ==> calls(ConnectionMonitor.Start) == 1 && calls(ConnectionMonitor.OnDisconnect) == 1 && calls(ConnectionMonitor.OnReconnect) == 1
 //@   on call becomeFollower assert C07+C08.rounds_never_demote: false
-//@   on call wg.Add assert C20+C09.no_new_run_under_a_waiting_stop: e.stopsWaiting == 0
+//@   on call wg.Add assert C20+C09+C08.no_new_run_under_a_waiting_stop: e.stopsWaiting == 0
 
 //@ func (e *kvElection) attemptAcquireWithRetry(ctx)
 //@   tags C17 C06 C07
@@ -533,7 +533,7 @@ package leader
 
 //@ func (e *kvElection) becomeLeader(token, rev)
 //@   tags C02 C05 C08 C18 C19 C09
-//@   requires C02+C05+C18.claim_backed_by_own_write: Own(rev) && rev != 0 && PubTok(rev) == token && PubID(rev) == e.cfg.InstanceID && OwnTok(token)
+//@   requires C02+C05+C18+C08.claim_backed_by_own_write: Own(rev) && rev != 0 && PubTok(rev) == token && PubID(rev) == e.cfg.InstanceID && OwnTok(token)
 //@   ghost inBecomeLeader Bool = true
 //@   ghost wasLeaderAtLock Bool = false
 //@   ghost promoteSet Bool = false
@@ -676,6 +676,11 @@ package leader
 //@   on return assert C20+C09.stop_wait_is_closed: stopsAnnouncedHere == 0
 //@   on select as s assert C09.stop_waits_time_boxed: s.blocking ==> s.hasAfter
 //@   on select as s assert C09.stop_waits_honour_the_callers_context: s.blocking ==> s.hasDone && s.doneCtx == ctx
+//@   ghost dlOK Bool = false
+//@   ghost untilRes Int = 0
+//@   on ret Context.Deadline as d when d.ctx == ctx set dlOK = d.result1
+//@   on ret time.Until as u set untilRes = u.result
+//@   on call time.After as a assert C09.stop_with_context_wait_bound: a.d == (opts.Timeout != 0 ? opts.Timeout : (dlOK ? untilRes : 5000000000))
 //@   ensures C08.demote_iff_claim_cleared: result == nil && !ctxNilL ==> (wasLeaderL ? (calls(onDemote) + scalls(onDemote) == 1 || (calls(onDemote) + scalls(onDemote) == 0 && demoteNilSeen)) : calls(onDemote) + scalls(onDemote) == 0)
 //@   ensures C09.delete_issued: result == nil && !ctxNilL && opts.DeleteKey && wasLeaderL ==> calls(KeyValue.Delete) + calls(RevisionDeleter.DeleteRevision) == 1
 //@   ensures C01+C02+C07.delete_issued_at_most_once: calls(KeyValue.Delete) + scalls(KeyValue.Delete) + calls(RevisionDeleter.DeleteRevision) + scalls(RevisionDeleter.DeleteRevision) <= 1
@@ -820,7 +825,7 @@ package leader
 //@   ghost leaderThisTick Bool = false
 //@   on recv ticker set leaderThisTick = false
 //@   on load kvElection.isLeader as l set leaderThisTick = l.value
-//@   on call KeyValue.Update assert C06+C03+C07.refresh_only_while_leader: leaderThisTick
+//@   on call KeyValue.Update assert C06+C03+C07+C09.refresh_only_while_leader: leaderThisTick
 //@   on call HealthChecker.Check assert C12.health_only_while_leader: leaderThisTick
 //@   on recv ticker set failed = false
 //@   on recv ticker set classified = false
